@@ -338,8 +338,9 @@ def json_decoder(obj_dict: dict[str, Any]) -> dict[str, Any] | Object | Alias | 
     Returns:
         An instance of a data class.
     """
-    # Load expressions.
-    if "cls" in obj_dict:
+    # Load expressions: their class name is stored as a string
+    # (a members dictionary can have a `cls` key too, whose value is an already loaded member).
+    if isinstance(obj_dict.get("cls"), str):
         return _load_expression(obj_dict)
 
     # Load objects and parameters.
